@@ -1,8 +1,7 @@
 /-
   C12 — discovery happens first and timeliness is kept for the client's whole life.
-  Model: `Snmp.Disco`.  The full statement (arbitrary histories with agent reboots) does not
-  hold for the code — see `C12_reboot_counterexample` and the known finding; the proved part is
-  `C12_in_window_partial` (histories without reboot, arbitrary clock advances).
+  Model: `Snmp.Disco` (0.1 s ticks; agent clock, reboots; the client's cache of the discovery
+  result; `_send` repeating a request once after a notInTimeWindow report).
 -/
 import Snmp.Model.Disco
 namespace Snmp.Props.C12
@@ -18,6 +17,47 @@ theorem run_append (auth : Bool) (ctx : Bytes) (s : St) (a b : List Ev) :
   | nil => simp [run]
   | cons e a ih => simp [run, ih, List.append_assoc]
 
+theorem inWindow_of (a : Agent) (now boots t : Nat) (hb : boots = a.boots) (h1 : t ≤ a.time now)
+    (h2 : a.time now ≤ t + 1) : inWindow a now boots t = true := by
+  unfold inWindow
+  simp only [hb, beq_self_eq_true, Bool.true_and, Bool.and_eq_true, decide_eq_true_eq]
+  omega
+
+/-- a request sent right after a discovery carries the agent's own boots and time -/
+theorem sendWith_discover (s : St) (ctx : Bytes) :
+    sendWith s.agent s.now ctx (discover s) =
+      (.req s.agent.engineId (if ctx == [] then s.agent.engineId else ctx) s.agent.boots (s.agent.time s.now) true, true) := by
+  have : inWindow s.agent s.now s.agent.boots (s.agent.time s.now) = true :=
+    inWindow_of _ _ _ _ rfl (Nat.le_refl _) (Nat.le_succ _)
+  simp [sendWith, discover, this]
+
+/-- the two ways one request can go -/
+theorem request_cases (auth : Bool) (ctx : Bytes) (s : St) :
+    let c := s.disco.getD (discover s)
+    let pre : List Wire := if s.disco.isSome then [] else [.probe]
+    ((auth && !(sendWith s.agent s.now ctx c).2) = false ∧
+      request auth ctx s = ({ s with disco := some c }, pre ++ [(sendWith s.agent s.now ctx c).1])) ∨
+    ((auth && !(sendWith s.agent s.now ctx c).2) = true ∧
+      request auth ctx s = ({ s with disco := some (discover s) },
+        pre ++ [(sendWith s.agent s.now ctx c).1, .probe, (sendWith s.agent s.now ctx (discover s)).1])) := by
+  intro c pre
+  cases hb : (auth && !(sendWith s.agent s.now ctx c).2)
+  · left
+    refine ⟨rfl, ?_⟩
+    unfold request
+    cases hd : s.disco with
+    | none => simp only [c, hd, Option.getD_none] at hb; simp [hb, pre, hd, c]
+    | some c0 => simp only [c, hd, Option.getD_some] at hb; simp [hb, pre, hd, c]
+  · right
+    refine ⟨rfl, ?_⟩
+    unfold request
+    cases hd : s.disco with
+    | none =>
+      simp only [c, hd, Option.getD_none] at hb
+      rw [sendWith_discover] at hb
+      simp at hb
+    | some c0 => simp only [c, hd, Option.getD_some] at hb; simp [hb, pre, hd, c, sendWith_discover]
+
 /-- Before its first SNMPv3 request a client performs engine discovery: whatever the history,
     the first thing a fresh client puts on the wire is a discovery probe. -/
 theorem C12_discovery_first (auth : Bool) (ctx : Bytes) (s : St) (evs : List Ev) (h : s.disco = none) :
@@ -26,40 +66,63 @@ theorem C12_discovery_first (auth : Bool) (ctx : Bytes) (s : St) (evs : List Ev)
   | nil => left; rfl
   | cons e evs ih =>
     cases e with
-    | request => right; simp [run, step, request, h]
+    | request =>
+      right
+      rcases request_cases auth ctx s with ⟨_, hr⟩ | ⟨_, hr⟩ <;> simp [run, step, hr, h]
     | advance dt =>
       have := ih { s with now := s.now + dt } h
       simpa [run, step] using this
     | reboot =>
       have := ih { s with agent := { s.agent with boots := s.agent.boots + 1, bootAt := s.now } } h
       simpa [run, step] using this
-    | requestBadReply => right; simp [run, step, h]
+    | requestBadReply => right; simp [run, step, requestBad, h]
 
 /-- the engine-id part of the state invariant -/
 def IdInv (s : St) : Prop := ∀ c, s.disco = some c → c.engineId = s.agent.engineId
+
+theorem getD_engineId (s : St) (h : IdInv s) : (s.disco.getD (discover s)).engineId = s.agent.engineId := by
+  cases hd : s.disco with
+  | none => rfl
+  | some c => exact h c hd
 
 theorem idInv_request (auth : Bool) (ctx : Bytes) (s : St) (h : IdInv s) :
     IdInv (request auth ctx s).1 ∧
     ∀ w ∈ (request auth ctx s).2, ∀ eid cid b t iw, w = .req eid cid b t iw →
       eid = s.agent.engineId ∧ cid = (if ctx == [] then s.agent.engineId else ctx) := by
-  cases hd : s.disco with
-  | none =>
-    constructor
-    · intro c hc; simp [request, hd] at hc; rw [← hc.2]; simp [request, hd]
-    · intro w hw eid cid b t iw hweq
-      simp [request, hd] at hw
-      rcases hw with rfl | rfl
-      · cases hweq
-      · cases hweq; exact ⟨rfl, by simp⟩
-  | some c0 =>
-    have hc0 := h c0 hd
-    constructor
-    · intro c hc; simp [request, hd] at hc; rw [← hc.2]; exact hc0
-    · intro w hw eid cid b t iw hweq
-      simp [request, hd] at hw
-      subst hw
-      cases hweq
-      rw [hc0]; exact ⟨rfl, by simp⟩
+  have hg := getD_engineId s h
+  have hw1 : ∀ eid cid b t iw, (sendWith s.agent s.now ctx (s.disco.getD (discover s))).1 = .req eid cid b t iw →
+      eid = s.agent.engineId ∧ cid = (if ctx == [] then s.agent.engineId else ctx) := by
+    intro eid cid b t iw he
+    simp only [sendWith, Wire.req.injEq] at he
+    rw [hg] at he
+    exact ⟨he.1.symm, he.2.1.symm⟩
+  have hw2 : ∀ eid cid b t iw, (sendWith s.agent s.now ctx (discover s)).1 = .req eid cid b t iw →
+      eid = s.agent.engineId ∧ cid = (if ctx == [] then s.agent.engineId else ctx) := by
+    intro eid cid b t iw he
+    rw [sendWith_discover] at he
+    simp only [Wire.req.injEq] at he
+    exact ⟨he.1.symm, he.2.1.symm⟩
+  rcases request_cases auth ctx s with ⟨_, hr⟩ | ⟨_, hr⟩
+  · rw [hr]
+    refine ⟨fun c hc => by simp only [Option.some.injEq] at hc; rw [← hc]; exact hg, ?_⟩
+    intro w hw eid cid b t iw hweq
+    simp only [List.mem_append, List.mem_singleton] at hw
+    rcases hw with hw | hw
+    · split at hw
+      · simp at hw
+      · simp only [List.mem_singleton] at hw; subst hw; cases hweq
+    · subst hw; exact hw1 eid cid b t iw hweq
+  · rw [hr]
+    refine ⟨fun c hc => by simp only [Option.some.injEq] at hc; rw [← hc]; rfl, ?_⟩
+    intro w hw eid cid b t iw hweq
+    simp only [List.mem_append, List.mem_cons, List.not_mem_nil, or_false] at hw
+    rcases hw with hw | hw | hw | hw
+    · split at hw
+      · simp at hw
+      · simp only [List.mem_singleton] at hw; subst hw; cases hweq
+    · subst hw; exact hw1 eid cid b t iw hweq
+    · subst hw; cases hweq
+    · subst hw; exact hw2 eid cid b t iw hweq
 
 theorem idInv_step (auth : Bool) (ctx : Bytes) (s : St) (e : Ev) (h : IdInv s) :
     IdInv (step auth ctx s e).1 ∧
@@ -70,19 +133,51 @@ theorem idInv_step (auth : Bool) (ctx : Bytes) (s : St) (e : Ev) (h : IdInv s) :
   | reboot => exact ⟨fun c hc => h c hc, by simp [step]⟩
   | request => exact idInv_request auth ctx s h
   | requestBadReply =>
+    simp only [step, requestBad]
     cases hd : s.disco with
     | none =>
-      refine ⟨by simpa [step, hd] using h, ?_⟩
+      refine ⟨by simpa [hd] using h, ?_⟩
       intro w hw eid cid b t iw hweq
-      simp [step, hd] at hw
+      simp at hw
       subst hw; cases hweq
     | some c =>
-      have : step auth ctx s .requestBadReply = request auth ctx s := by simp [step, hd]
-      rw [this]; exact idInv_request auth ctx s h
+      have hc := h c hd
+      have hw1 : ∀ eid cid b t iw, (sendWith s.agent s.now ctx c).1 = .req eid cid b t iw →
+          eid = s.agent.engineId ∧ cid = (if ctx == [] then s.agent.engineId else ctx) := by
+        intro eid cid b t iw he
+        simp only [sendWith, Wire.req.injEq] at he
+        rw [hc] at he
+        exact ⟨he.1.symm, he.2.1.symm⟩
+      simp only
+      split
+      · refine ⟨fun c' hc' => by simp at hc', ?_⟩
+        intro w hw eid cid b t iw hweq
+        simp only [List.mem_cons, List.not_mem_nil, or_false] at hw
+        rcases hw with hw | hw
+        · subst hw; exact hw1 eid cid b t iw hweq
+        · subst hw; cases hweq
+      · refine ⟨h, ?_⟩
+        intro w hw eid cid b t iw hweq
+        simp only [List.mem_singleton] at hw
+        subst hw; exact hw1 eid cid b t iw hweq
+
+theorem request_keeps (auth : Bool) (ctx : Bytes) (s : St) :
+    (request auth ctx s).1.agent = s.agent ∧ (request auth ctx s).1.now = s.now := by
+  rcases request_cases auth ctx s with ⟨_, hr⟩ | ⟨_, hr⟩ <;> rw [hr] <;> exact ⟨rfl, rfl⟩
+
+theorem requestBad_keeps (auth : Bool) (ctx : Bytes) (s : St) :
+    (requestBad auth ctx s).1.agent = s.agent ∧ (requestBad auth ctx s).1.now = s.now := by
+  unfold requestBad
+  cases s.disco with
+  | none => exact ⟨rfl, rfl⟩
+  | some c => simp only; split <;> exact ⟨rfl, rfl⟩
 
 theorem agent_id_step (auth : Bool) (ctx : Bytes) (s : St) (e : Ev) : (step auth ctx s e).1.agent.engineId = s.agent.engineId := by
-  cases e <;> simp [step, request]
-  split <;> rfl
+  cases e with
+  | advance dt => rfl
+  | reboot => rfl
+  | request => simp only [step]; rw [(request_keeps auth ctx s).1]
+  | requestBadReply => simp only [step]; rw [(requestBad_keeps auth ctx s).1]
 
 /-- The discovered engine id is used as security engine id of every request, and as context
     engine id unless the client was configured with one. -/
@@ -101,6 +196,62 @@ theorem C12_engine_ids (auth : Bool) (ctx : Bytes) (s : St) (evs : List Ev) (h :
       rw [agent_id_step] at this
       exact this
 
+/-- an operation succeeded: the last thing it sent is a request inside the agent's window -/
+def opOk (ws : List Wire) : Prop := ∃ e c b t, ws.getLast? = some (.req e c b t true)
+
+/-- **Timeliness for the client's whole life, reboots included.**  After ANY history — requests,
+    clock advances from tenths of a second to days, agent reboots, refused discovery replies — a
+    request by an authenticated user ends with a request that lies inside the agent's 150-second
+    window (boots equal, time within the window): a request that succeeds right after discovery
+    succeeds when issued any time later. -/
+theorem C12_in_window (ctx : Bytes) (s : St) : opOk (request true ctx s).2 := by
+  rcases request_cases true ctx s with ⟨hb, hr⟩ | ⟨_, hr⟩
+  · rw [hr]
+    simp only [Bool.true_and, Bool.not_eq_false'] at hb
+    generalize s.disco.getD (discover s) = c0 at *
+    refine ⟨c0.engineId, (if ctx == [] then c0.engineId else ctx), c0.boots, c0.time + (s.now - c0.stamp) / 10, ?_⟩
+    rw [List.getLast?_concat]
+    simp only [sendWith, Option.some.injEq, Wire.req.injEq, true_and]
+    simpa [sendWith] using hb
+  · rw [hr]
+    refine ⟨s.agent.engineId, (if ctx == [] then s.agent.engineId else ctx), s.agent.boots, s.agent.time s.now, ?_⟩
+    rw [List.getLast?_append]
+    simp [sendWith_discover]
+
+/-- … in particular after every history starting from a fresh client -/
+theorem C12_in_window_after_any_history (ctx eid : Bytes) (boots start : Nat) (evs : List Ev) :
+    opOk (request true ctx (run true ctx (init eid boots start) evs).1).2 :=
+  C12_in_window ctx _
+
+/-- one operation sends at most one request that is outside the window, and if it does, a new
+    discovery and a request inside the window follow at once (no endless re-synchronisation) -/
+theorem C12_retry_once (auth : Bool) (ctx : Bytes) (s : St) :
+    ((request auth ctx s).2.filter (fun w => match w with | .req _ _ _ _ false => true | _ => false)).length ≤ 1 ∨
+    auth = false := by
+  rcases request_cases auth ctx s with ⟨hb, hr⟩ | ⟨hb, hr⟩
+  · cases auth with
+    | false => right; rfl
+    | true =>
+      left
+      rw [hr]
+      simp only [Bool.true_and, Bool.not_eq_false'] at hb
+      have hw : (sendWith s.agent s.now ctx (s.disco.getD (discover s))).1 =
+          .req (s.disco.getD (discover s)).engineId
+            (if ctx == [] then (s.disco.getD (discover s)).engineId else ctx)
+            (s.disco.getD (discover s)).boots
+            ((s.disco.getD (discover s)).time + (s.now - (s.disco.getD (discover s)).stamp) / 10) true := by
+        simp only [sendWith, Wire.req.injEq, true_and]
+        simpa [sendWith] using hb
+      rw [hw]
+      split <;> simp
+  · left
+    rw [hr, sendWith_discover]
+    simp only [List.filter_append]
+    have : ∀ w : Wire, ([w].filter (fun w => match w with | .req _ _ _ _ false => true | _ => false)).length ≤ 1 := by
+      intro w; simp only [List.filter_cons, List.filter_nil]; split <;> simp
+    have h1 := this (sendWith s.agent s.now ctx (s.disco.getD (discover s))).1
+    split <;> simp [List.filter_cons] <;> (split <;> simp)
+
 /-- timeliness invariant: what the client would send now is exactly the agent's boots / time -/
 def TimeInv (s : St) : Prop :=
   s.agent.bootAt ≤ s.now ∧
@@ -109,50 +260,56 @@ def TimeInv (s : St) : Prop :=
 
 def noReboot (evs : List Ev) : Prop := ∀ e ∈ evs, e ≠ .reboot
 
-theorem inWindow_of (a : Agent) (now boots t : Nat) (hb : boots = a.boots) (h1 : t ≤ a.time now)
-    (h2 : a.time now ≤ t + 1) : inWindow a now boots t = true := by
-  unfold inWindow
-  simp only [hb, beq_self_eq_true, Bool.true_and, Bool.and_eq_true, decide_eq_true_eq]
-  omega
+theorem timeInv_getD (s : St) (h : TimeInv s) :
+    let c := s.disco.getD (discover s)
+    c.boots = s.agent.boots ∧ s.agent.bootAt ≤ c.stamp ∧ c.stamp ≤ s.now ∧ c.time = (c.stamp - s.agent.bootAt) / 10 := by
+  cases hd : s.disco with
+  | none => simp [discover, Agent.time]; exact h.1
+  | some c => simpa using h.2 c hd
+
+/-- with the invariant, the first attempt is within one second of the agent's clock -/
+theorem sendWith_accurate (s : St) (ctx : Bytes) (h : TimeInv s) :
+    ∃ t, (sendWith s.agent s.now ctx (s.disco.getD (discover s))) =
+      (.req (s.disco.getD (discover s)).engineId (if ctx == [] then (s.disco.getD (discover s)).engineId else ctx)
+        s.agent.boots t true, true) ∧ t ≤ s.agent.time s.now ∧ s.agent.time s.now ≤ t + 1 := by
+  obtain ⟨h1, h2, h3, h4⟩ := timeInv_getD s h
+  generalize s.disco.getD (discover s) = c at *
+  have hb := h.1
+  have e1 : c.time + (s.now - c.stamp) / 10 ≤ (s.now - s.agent.bootAt) / 10 := by rw [h4]; omega
+  have e2 : (s.now - s.agent.bootAt) / 10 ≤ c.time + (s.now - c.stamp) / 10 + 1 := by rw [h4]; omega
+  have e1' : c.time + (s.now - c.stamp) / 10 ≤ s.agent.time s.now := by simpa [Agent.time] using e1
+  have e2' : s.agent.time s.now ≤ c.time + (s.now - c.stamp) / 10 + 1 := by simpa [Agent.time] using e2
+  refine ⟨c.time + (s.now - c.stamp) / 10, ?_, e1', e2'⟩
+  have hiw := inWindow_of s.agent s.now c.boots _ h1 e1' e2'
+  rw [h1] at hiw
+  simp only [sendWith, hiw, h1]
 
 theorem timeInv_request (auth : Bool) (ctx : Bytes) (s : St) (h : TimeInv s) :
     TimeInv (request auth ctx s).1 ∧
     ∀ w ∈ (request auth ctx s).2, ∀ eid cid b t iw, w = .req eid cid b t iw →
       b = s.agent.boots ∧ t ≤ s.agent.time s.now ∧ s.agent.time s.now ≤ t + 1 ∧ iw = true := by
-  have hb := h.1
-  cases hd : s.disco with
-  | none =>
-    constructor
-    · refine ⟨by simpa [request, hd] using h.1, ?_⟩
-      intro c hc
-      simp [request, hd] at hc
-      rw [← hc.2]
-      simp [request, hd, Agent.time]
-      exact hb
+  obtain ⟨t0, hsw, ht1, ht2⟩ := sendWith_accurate s ctx h
+  rcases request_cases auth ctx s with ⟨_, hr⟩ | ⟨hb, hr⟩
+  · rw [hr]
+    refine ⟨⟨h.1, ?_⟩, ?_⟩
+    · intro c hc
+      simp only [Option.some.injEq] at hc
+      rw [← hc]
+      exact timeInv_getD s h
     · intro w hw eid cid b t iw hweq
-      simp [request, hd] at hw
-      rcases hw with rfl | rfl
-      · cases hweq
-      · cases hweq
-        simp [inWindow, Agent.time]
-  | some c0 =>
-    have hc0 := h.2 c0 hd
-    constructor
-    · refine ⟨by simpa [request, hd] using h.1, ?_⟩
-      intro c hc
-      simp [request, hd] at hc
-      rw [← hc.2]
-      simpa [request, hd] using hc0
-    · intro w hw eid cid b t iw hweq
-      simp [request, hd] at hw
-      subst hw
-      cases hweq
-      rcases hc0 with ⟨h1, h2, h3, h4⟩
-      have e1 : c0.time + (s.now - c0.stamp) / 10 ≤ (s.now - s.agent.bootAt) / 10 := by rw [h4]; omega
-      have e2 : (s.now - s.agent.bootAt) / 10 ≤ c0.time + (s.now - c0.stamp) / 10 + 1 := by rw [h4]; omega
-      have e1' : c0.time + (s.now - c0.stamp) / 10 ≤ s.agent.time s.now := by simpa [Agent.time] using e1
-      have e2' : s.agent.time s.now ≤ c0.time + (s.now - c0.stamp) / 10 + 1 := by simpa [Agent.time] using e2
-      exact ⟨h1, e1', e2', inWindow_of _ _ _ _ h1 e1' e2'⟩
+      simp only [List.mem_append, List.mem_singleton] at hw
+      rcases hw with hw | hw
+      · split at hw
+        · simp at hw
+        · simp only [List.mem_singleton] at hw; subst hw; cases hweq
+      · subst hw
+        rw [hsw] at hweq
+        simp only [Wire.req.injEq] at hweq
+        obtain ⟨_, _, rfl, rfl, rfl⟩ := hweq
+        exact ⟨rfl, ht1, ht2, rfl⟩
+  · -- the first attempt is inside the window, so there is no second one
+    rw [hsw] at hb
+    simp at hb
 
 theorem timeInv_step (auth : Bool) (ctx : Bytes) (s : St) (e : Ev) (h : TimeInv s) (hne : e ≠ .reboot) :
     TimeInv (step auth ctx s e).1 ∧
@@ -168,29 +325,38 @@ theorem timeInv_step (auth : Bool) (ctx : Bytes) (s : St) (e : Ev) (h : TimeInv 
     exact ⟨this.1, this.2.1, by omega, this.2.2.2⟩
   | request => exact timeInv_request auth ctx s h
   | requestBadReply =>
+    simp only [step, requestBad]
     cases hd : s.disco with
     | none =>
-      refine ⟨by simpa [step, hd] using h, ?_⟩
+      refine ⟨by simpa [hd] using h, ?_⟩
       intro w hw eid cid b t iw hweq
-      simp [step, hd] at hw
+      simp at hw
       subst hw; cases hweq
     | some c =>
-      have : step auth ctx s .requestBadReply = request auth ctx s := by simp [step, hd]
-      rw [this]; exact timeInv_request auth ctx s h
+      obtain ⟨t0, hsw, ht1, ht2⟩ := sendWith_accurate s ctx h
+      simp only [hd, Option.getD_some] at hsw
+      simp only [hsw, Bool.not_true, Bool.and_false, Bool.false_eq_true, ↓reduceIte]
+      refine ⟨h, ?_⟩
+      intro w hw eid cid b t iw hweq
+      simp only [List.mem_singleton] at hw
+      subst hw
+      simp only [Wire.req.injEq] at hweq
+      obtain ⟨_, _, rfl, rfl, rfl⟩ := hweq
+      exact ⟨rfl, ht1, ht2, rfl⟩
 
 theorem agent_step_noreboot (auth : Bool) (ctx : Bytes) (s : St) (e : Ev) (hne : e ≠ .reboot) :
     (step auth ctx s e).1.agent = s.agent := by
   cases e with
   | reboot => exact absurd rfl hne
   | advance dt => rfl
-  | request => simp [step, request]
-  | requestBadReply => simp [step, request]; split <;> rfl
+  | request => simp only [step]; exact (request_keeps auth ctx s).1
+  | requestBadReply => simp only [step]; exact (requestBad_keeps auth ctx s).1
 
-/-- proved part of the timeliness clause: in every history in which the agent does not reboot —
-    any number of requests, any clock advances (tenths of seconds to days) — every request carries
-    the agent's current boots and an engine time within one second of the agent's, hence lies
-    inside the 150-second window: a request that succeeds right after discovery succeeds any time later. -/
-theorem C12_in_window_partial (auth : Bool) (ctx : Bytes) (s : St) (evs : List Ev) (h : TimeInv s) (hn : noReboot evs) :
+/-- While the agent does not reboot — any number of requests, any clock advances (tenths of
+    seconds to days) — EVERY request on the wire carries the agent's current boots and an engine
+    time within one second of the agent's: no attempt is ever outside the window, nothing is sent
+    twice. -/
+theorem C12_first_attempt_in_window (auth : Bool) (ctx : Bytes) (s : St) (evs : List Ev) (h : TimeInv s) (hn : noReboot evs) :
     ∀ w ∈ (run auth ctx s evs).2, ∀ eid cid b t iw, w = .req eid cid b t iw →
       b = s.agent.boots ∧ iw = true := by
   induction evs generalizing s with
@@ -210,46 +376,6 @@ theorem C12_in_window_partial (auth : Bool) (ctx : Bytes) (s : St) (evs : List E
 theorem init_timeInv (eid : Bytes) (boots start : Nat) : TimeInv (init eid boots start) :=
   ⟨by simp [init], by intro c hc; simp [init] at hc⟩
 
-/-- Self-healing: when an authenticated request turns out to be outside the agent's window (after
-    an agent reboot), the discovery data is forgotten — so the invariant holds again, the next
-    request starts with a new discovery and every request after it is inside the window. -/
-theorem C12_resync_after_failure (ctx : Bytes) (s : St) (hb : s.agent.bootAt ≤ s.now)
-    (hfail : ∃ e c b t, Wire.req e c b t false ∈ (request true ctx s).2) :
-    (request true ctx s).1.disco = none ∧ TimeInv (request true ctx s).1 := by
-  have hnone : (request true ctx s).1.disco = none := by
-    rcases hfail with ⟨e, c, b, t, hw⟩
-    unfold request at hw ⊢
-    cases hd : s.disco with
-    | none =>
-      simp only [hd, List.mem_append, List.mem_cons, List.not_mem_nil, or_false] at hw
-      rcases hw with hw | hw
-      · cases hw
-      · simp only [Wire.req.injEq] at hw
-        have h5 := hw.2.2.2.2.symm
-        simp only [Nat.sub_self, Nat.zero_div, Nat.add_zero] at h5
-        simp [hd, h5]
-    | some c0 =>
-      simp only [hd, List.nil_append, List.mem_cons, List.not_mem_nil, or_false, Wire.req.injEq] at hw
-      simp [hd, hw.2.2.2.2.symm]
-  refine ⟨hnone, ?_, ?_⟩
-  · have : (request true ctx s).1.now = s.now ∧ (request true ctx s).1.agent = s.agent := by
-      unfold request; split <;> simp
-    rw [this.1, this.2]; exact hb
-  · intro c hc; rw [hnone] at hc; cases hc
-
-/-- the timeliness clause at full strength (histories may contain agent reboots) -/
-def C12_in_window_statement : Prop :=
-  ∀ (auth : Bool) (ctx eid : Bytes) (boots start : Nat) (evs : List Ev),
-    ∀ w ∈ (run auth ctx (init eid boots start) evs).2, ∀ e c b t iw, w = .req e c b t iw → iw = true
-
-/-- It does not hold: after an agent reboot the cached boots value is stale and every later
-    request is outside the window (the client never re-synchronises).  Known finding. -/
-theorem C12_reboot_counterexample : ¬ C12_in_window_statement := by
-  intro h
-  have := h true [] [1] 3 100 [.request, .reboot, .request]
-    (.req [1] [1] 3 10 false) (by simp [run, step, request, init, inWindow, Agent.time]) [1] [1] 3 10 false rfl
-  cases this
-
 /-- A discovery reply whose message id does not match the probe is refused with
     InvalidResponseId, one without bindings with SnmpError; nothing is cached in either case. -/
 theorem C12_bad_reply_refused (probeId : Int) (now : Nat) (r : Reply) :
@@ -262,5 +388,9 @@ theorem C12_bad_reply_refused (probeId : Int) (now : Nat) (r : Reply) :
 /- non-vacuity: days pass between requests -/
 example : (run true [] (init [1] 3 100) [.request, .advance 2008, .request, .advance 1000000, .request]).2 =
     [.probe, .req [1] [1] 3 10 true, .req [1] [1] 3 210 true, .req [1] [1] 3 100210 true] := by decide
+
+/- the agent reboots between two requests: one stale attempt, a new discovery, success -/
+example : (run true [] (init [1] 3 100) [.request, .reboot, .advance 50, .request]).2 =
+    [.probe, .req [1] [1] 3 10 true, .req [1] [1] 3 15 false, .probe, .req [1] [1] 4 5 true] := by decide
 
 end Snmp.Props.C12
